@@ -211,6 +211,15 @@ def discipline(text_in, out, over, toks_out, nodes_out):
                     continue                      # nested, not siblings
                 gap = b[hi1:lo2].decode("utf-8", "replace").replace("\r\n", "\n")
                 core = gap.strip()
+                if g == "items" and core != "" and all(l.strip() == "" or l.strip().startswith("//") for l in gap.split("\n")[1:-1]) and gap.split("\n")[0].strip() == "":
+                    # line comments between the two nodes: the runs of blank lines around them are bounded all the same
+                    run = best = 0
+                    for l in gap.split("\n")[1:-1]:
+                        run = run + 1 if l.strip() == "" else 0
+                        best = max(best, run)
+                    if best > upper:
+                        bad.append(("blank_run_items", "%d blank lines next to a comment between two consecutive items/statements (blank_lines_upper_bound %d) at byte %d" % (best, upper, hi1)))
+                        break
                 if g == "items" and core == "":
                     if gap.count("\n") - 1 > upper:
                         bad.append(("blank_run_items", "%d blank lines between two consecutive items/statements (blank_lines_upper_bound %d) at byte %d" % (gap.count("\n") - 1, upper, hi1)))
@@ -227,7 +236,7 @@ for ns in ["Auto", "Unix", "Windows"]:
     for (lo, hi) in [(0, 1), (0, 0), (1, 2), (0, 3)]:
         for ht, ts in [("false", 4), ("true", 4), ("false", 2)]:
             GRID.append([["newline_style", ns], ["blank_lines_lower_bound", str(lo)], ["blank_lines_upper_bound", str(hi)], ["hard_tabs", ht], ["tab_spaces", str(ts)]])
-E2E_LAYOUTS = ["orig", "crlf", "blank", "lead"]
+E2E_LAYOUTS = ["orig", "crlf", "blank", "lead", "ffblank"]
 # "any amount of leading blank lines, tabs or spaces": prefixes put before the program by layout `lead`
 LEADS = ["\n  \n", "  \n", "\t\n\n", "\n\n  \n", " \n// c\n", "\n \t \n\n", "  \n  \n", "\n\n\n"]
 
